@@ -123,12 +123,13 @@ def kind_of(node):
             return "macro"
         if "generic" in warns:
             return "generic"
+        dnc = "do not call" in warns.lower()
         if "CMakeTest" in warns and "section" in warns:
-            return "section"
+            return "section" if dnc else "section-without-do-not-call-warning"
         if "CMakeTest" in warns and "test" in warns:
-            return "test"
+            return "test" if dnc else "test-without-do-not-call-warning"
         if "CTest" in warns:
-            return "ctest"
+            return "ctest" if dnc else "ctest-without-do-not-call-warning"
         if warns:
             return "unknown-warning"
         return "function"
